@@ -24,6 +24,7 @@ META = {
                     'denotes, computed from the declared factors only'],
 }
 META['bounds'].append('types with equal / long common names in both declaration orders (3 name pairs)')
+META['bounds'].append('colliding-names program: quotient, unit quotient and term-defined unit attempted before the quotient type exists')
 
 
 def setup(mode):
